@@ -1,5 +1,5 @@
 import Driver.Util
-import Hv.Storage.Chron
+import Hv.Storage.Fault
 
 /-! Shared driver for the storage domains C02 / C03 / C25: replays an ops file produced from the
     strace log of the real writer (`harness/c02.go`) against the model of `Hv/Storage`.
@@ -71,7 +71,7 @@ def kindOf (cs : List Cell) : String :=
 /-- canonical text of an operation, as `c02RunOps` prints the traced one -/
 def showFsOp (res : String) : FsOp → String
   | .create p => s!"create {showPath p} - 0 0 - {res}"
-  | .write p off cs => s!"write {showPath p} - {off} {cs.length} {kindOf cs} {res}"
+  | .write p off cs => s!"write {showPath p} - {off} {cs.length} {if res == "ok" then kindOf cs else "-"} {res}"
   | .sync p => s!"sync {showPath p} - 0 0 - {res}"
   | .rename a b => s!"rename {showPath a} {showPath b} 0 0 - {res}"
   | .unlink p => s!"unlink {showPath p} - 0 0 - {res}"
@@ -94,11 +94,16 @@ structure DS where
   wr : List Op := []            -- every entry handed to Write, in order
   synced : List (Nat × List Op) := []   -- (index just after an fsync, entries loadable from the disk then), newest first
   tickSyncs : Bool := true      -- fileWriterHandler → chronicler.Sync → FileWriter.Sync → fsync, all present
+  mres : List String := []      -- result text of each operation of `mops` (C25; "ok" otherwise)
+  fc : FCfg := ⟨true, false, false⟩
+  rs : List Res := []           -- results announced for the next region (C25)
+  firstFault : Option String := none
+  phantom : List Nat := []      -- header bytes of a block whose header write fails in this region (C25)
 
 def DS.mk' (s : DS) : Mk := fun es =>
   match s.tbl.find? (fun p => p.2.ents == es) with
   | some p => p.2
-  | none => { hdr := [], plen := 0, ents := es }
+  | none => { hdr := s.phantom, plen := le32 s.phantom, ents := es }
 
 def DS.block (s : DS) (id : String) : Block :=
   match s.tbl.find? (fun p => p.1 == id) with
@@ -137,7 +142,7 @@ def loadedEntries (c : Cfg) (d : Disk) : List Op :=
   | none => []
 
 def DS.push (s : DS) (ops : List FsOp) : DS :=
-  let s1 := { s with mops := s.mops ++ ops, mdisk := s.mdisk.applyAll ops }
+  let s1 := { s with mops := s.mops ++ ops, mdisk := s.mdisk.applyAll ops, mres := s.mres ++ ops.map (fun _ => "ok") }
   -- an fsync is always the last operation of the act that issues it
   match ops.getLast? with
   | some (.sync .main) => { s1 with synced := (s1.mops.length, loadedEntries s.cfg s1.mdisk) :: s1.synced }
@@ -240,7 +245,7 @@ def step (h : Hooks) (s0 : DS) (line : String) : DS × String :=
   let s := if line.startsWith "act " then s0.checkpoint else s0
   match (line.splitOn " ").filter (· ≠ "") with
   | "case" :: _ =>
-    ({ cfg := s.cfg, probe := s.probe, tickSyncs := s.tickSyncs }, line)
+    ({ cfg := s.cfg, probe := s.probe, tickSyncs := s.tickSyncs, fc := s.fc }, line)
   | ["tick", n] =>
     let n := nat n
     if s.tickSyncs then
@@ -297,7 +302,7 @@ def step (h : Hooks) (s0 : DS) (line : String) : DS × String :=
     | none => (s, "bad-op")
   | "log" :: rest =>
     match s.mops[s.cursor]? with
-    | some op => ({ s with cursor := s.cursor + 1 }, showFsOp "ok" op)
+    | some op => ({ s with cursor := s.cursor + 1 }, showFsOp (s.mres.getD s.cursor "ok") op)
     | none =>
       -- the model expected nothing here: keep the disk in step with reality
       match parseLogOp s rest with
